@@ -290,3 +290,42 @@ func verifCloneMetadata(m []Metadata) []Metadata {
 	}
 	return append([]Metadata{}, m...)
 }
+
+// verifArrays: the array documents of verifNodes, as the requested array type.
+func verifArrays[T ~[]JsonNode](tier int) []T {
+	out := []T{}
+	for _, n := range verifNodes(tier) {
+		if a, ok := n.(jsonArray); ok {
+			out = append(out, T(a))
+		}
+	}
+	return out
+}
+
+func verifObjects(tier int) []jsonObject {
+	out := []jsonObject{}
+	for _, n := range verifNodes(tier) {
+		if o, ok := n.(jsonObject); ok {
+			out = append(out, o)
+		}
+	}
+	return out
+}
+
+func verifConv[A any, B any](in []A) []B {
+	out := make([]B, 0, len(in))
+	for _, a := range in {
+		var x interface{} = a
+		var zero B
+		switch v := x.(type) {
+		case string:
+			switch interface{}(zero).(type) {
+			case jsonString:
+				out = append(out, interface{}(jsonString(v)).(B))
+			case jsonStringOrInteger:
+				out = append(out, interface{}(jsonStringOrInteger(v)).(B))
+			}
+		}
+	}
+	return out
+}
